@@ -556,3 +556,19 @@ func (s *UtxoStore) VerifWF() bool { return s != nil && s.bucketMeta != nil }
 //@   props C19
 //@   requires s.VerifWF() && rtx != nil && hash != nil
 //@   modifies gmap("iterkey")
+
+// ---- C12: the first-use height of an address record is written only when the address has no used record yet
+// (absent, or height 0 = unused); a later credit never replaces an earlier first use.
+//@ func keyAddressRecord
+//@   props C12 C19
+//@   requires rec != nil
+//@   ensures result1 != nil ==> result0 == nil
+//@   ensures result1 == nil ==> fresh(result0) && len(result0) == 44 + len(rec.encodeAddress) && len(rec.walletId) == 42 && len(rec.encodeAddress) > 0
+//@   ensures result1 == nil ==> hasPrefix(result0, rec.walletId) && be16(result0, 42) == rec.addressClass
+//@ func (*UtxoStore).AddCredits
+//@   props C12
+//@   nopanic off
+//@   requires s != nil && s.bucketMeta != nil && tx != nil && rec != nil
+//@   modifies *
+//@   ignore Amount).Add
+//@   at "addrV = valueAddressRecord(addrRecord)" assert[C12] addrV == nil || readAddressHeight(addrV) == 0
